@@ -1,6 +1,7 @@
 import AndaVerif.Proofs.SchemaSound
 import AndaVerif.Proofs.SchemaDeclared
 import AndaVerif.Proofs.SchemaUpgrade
+import AndaVerif.Proofs.SchemaJsonProofs
 /-
 Property C13 — "What validation accepts, storage returns unchanged; nothing invalid gets in".
 Theorems over the model `AndaVerif.Schema` (`Model/Schema.lean`), for every float model `fm`
@@ -81,6 +82,104 @@ theorem read_accepts_only_conforming (fm : FloatModel) (ft : FieldType) (r v : F
 example : (match readPath fm0 (.map [(.text "a", .i64)]) (.map [(.text "a", .u64 1), (.text "gone", .bool true)]) with
     | some (.map [(.text "a", .i64 1)]) => true
     | _ => false) = true := by
+  decide
+
+/-! ## Both directions: accepted ⇔ valid -/
+
+/-- **`FieldType::validate` accepts exactly the valid values**: nothing invalid gets in and nothing
+valid is refused. `Conforms` / `InBudget` are the independent relational statements of declared
+type, nullability, keyed-map key set, wildcard key variant, tuple arity and the four budget limits. -/
+theorem validate_iff (fm : FloatModel) (b : Budget) (ft : FieldType) (v : FieldValue) :
+    validateWith fm b ft v = true ↔ (Conforms fm ft v ∧ InBudget b 0 v ∧ v.nodes ≤ b.maxNodes) := by
+  constructor
+  · exact nothing_invalid_accepted fm b ft v
+  · rintro ⟨h1, h2, h3⟩
+    simp only [validateWith, complexityOk, Bool.and_eq_true, decide_eq_true_eq]
+    exact ⟨⟨FieldValue.shapeOk_complete b h2, h3⟩, validateInner_complete fm h1⟩
+
+/-- validity of one stored field (`FieldEntry::validate`): `Null` needs an `Option` type -/
+def FieldValid (fm : FloatModel) (ft : FieldType) (v : FieldValue) : Prop :=
+  (v = .null ∧ ft.allowsNull = true) ∨
+    (v ≠ .null ∧ Conforms fm ft v ∧ InBudget Budget.default 0 v ∧ v.nodes ≤ Budget.default.maxNodes)
+
+theorem fieldValidate_iff (fm : FloatModel) (ft : FieldType) (v : FieldValue) :
+    fieldValidate fm ft v = true ↔ FieldValid fm ft v := by
+  constructor
+  · exact fieldValidate_sound fm ft v
+  · intro h
+    unfold fieldValidate
+    rcases h with ⟨rfl, h⟩ | ⟨hn, h⟩
+    · simpa [FieldValue.isNull] using h
+    · have : v.isNull = false := by revert hn; cases v <;> simp [FieldValue.isNull]
+      rw [this]
+      simp only [Bool.false_eq_true, if_false]
+      exact (validate_iff fm _ ft v).2 h
+
+/-- **`Document::set_field` accepts exactly** the values whose normal form is valid, and stores that
+normal form. -/
+theorem set_field_iff (fm : FloatModel) (ft : FieldType) (w v : FieldValue) :
+    setField fm ft w = some v ↔ (v = normalize fm ft w ∧ FieldValid fm ft v) := by
+  unfold setField
+  by_cases hv : fieldValidate fm ft (normalize fm ft w) = true
+  · simp only [hv, if_true, Option.some.injEq]
+    constructor
+    · rintro rfl; exact ⟨rfl, (fieldValidate_iff fm ft _).1 hv⟩
+    · rintro ⟨rfl, _⟩; rfl
+  · simp only [hv, Bool.false_eq_true, if_false]
+    constructor
+    · intro h; cases h
+    · rintro ⟨rfl, h⟩; exact absurd ((fieldValidate_iff fm ft _).2 h) hv
+
+/-- validity of a whole document against a schema (`Schema::validate`): no undeclared index, every
+present field valid, every absent field optional -/
+def DocValid (fm : FloatModel) (s : Schema) (d : Doc) : Prop :=
+  (∀ e ∈ d, e.1 ∈ s.idxs) ∧
+    ∀ f ∈ s.fields, (∀ v, d.lookup f.idx = some v → FieldValid fm f.ty v) ∧
+      (d.lookup f.idx = none → f.required = false)
+
+theorem schema_validate_iff (fm : FloatModel) (s : Schema) (d : Doc) :
+    s.validate fm d = true ↔ DocValid fm s d := by
+  unfold AndaVerif.Schema.Schema.validate DocValid
+  rw [Bool.and_eq_true, List.all_eq_true, List.all_eq_true]
+  simp only [List.contains_iff_mem]
+  constructor
+  · rintro ⟨h1, h2⟩
+    refine ⟨h1, fun f hf => ?_⟩
+    have := h2 f hf
+    cases hl : d.lookup f.idx with
+    | none => rw [hl] at this; exact ⟨fun v hv => (by cases hv), fun _ => (by simpa using this)⟩
+    | some x =>
+      rw [hl] at this
+      exact ⟨fun v hv => (by cases hv; exact (fieldValidate_iff fm _ _).1 this), fun h => (by cases h)⟩
+  · rintro ⟨h1, h2⟩
+    refine ⟨h1, fun f hf => ?_⟩
+    obtain ⟨ha, hb⟩ := h2 f hf
+    cases hl : d.lookup f.idx with
+    | none => simpa using hb hl
+    | some x => exact (fieldValidate_iff fm _ _).2 (ha x hl)
+
+/-- every refusal class of the property text is a real branch (each value differs from an accepted
+one by a single mutation) -/
+example :
+    -- field type
+    validate fm0 (.array [.i64]) (.array [.text "1"]) = false ∧
+    -- nullability
+    fieldValidate fm0 .i64 .null = false ∧ validate fm0 (.array [.i64]) (.array [.null]) = false ∧
+    -- map key set: undeclared key, missing required key
+    validate fm0 (.map [(.text "a", .i64), (.text "b", .option .i64)]) (.map [(.text "a", .i64 1), (.text "c", .i64 1)]) = false ∧
+    validate fm0 (.map [(.text "a", .i64), (.text "b", .option .i64)]) (.map [(.text "b", .i64 1)]) = false ∧
+    -- wildcard key variant
+    validate fm0 (.map [(.text "*", .i64)]) (.map [(.i64 1, .i64 1)]) = false ∧
+    -- tuple arity
+    validate fm0 (.array [.i64, .text]) (.array [.i64 1]) = false ∧
+    -- budget: depth, nodes, array length, map entries
+    validateWith fm0 ⟨1, 9, 9, 9⟩ (.array []) (.array [.array [.null]]) = false ∧
+    validateWith fm0 ⟨9, 2, 9, 9⟩ (.array []) (.array [.null, .null]) = false ∧
+    validateWith fm0 ⟨9, 9, 1, 9⟩ (.array []) (.array [.null, .null]) = false ∧
+    validateWith fm0 ⟨9, 9, 9, 0⟩ (.map []) (.map [(.text "a", .null)]) = false ∧
+    -- and the unmutated neighbours are accepted
+    validate fm0 (.map [(.text "a", .i64), (.text "b", .option .i64)]) (.map [(.text "a", .u64 1)]) = true ∧
+    validate fm0 (.array [.i64, .text]) (.array [.i64 1, .text "x"]) = true := by
   decide
 
 /-! ## What is accepted is in the declared variant, at every depth -/
@@ -310,6 +409,54 @@ example : (match Schema.upgradeWith s2new s1 with
       | some [(0, .u64 7), (2, .text "x")] => true
       | _ => false)
     | none => false) = true := by decide
+
+/-! ## The JSON (human-readable) rendering -/
+
+/-- **JSON escape round trip** (`b64:` / `i64:` / `txt:` prefixes, `JsonEscaped` payloads, key
+position vs value position, duplicate refusal): for every lawful string codec, a well-formed value
+without NaN, non-finite floats or f32 leaves is rendered to a JSON document from which the
+schema-less reader recovers exactly its schema-less image — the same image the CBOR reader yields
+(`codec`), so everything downstream of the reader is shared by the two encodings. -/
+theorem json_escape_roundtrip (fm : FloatModel) (tm : TextModel) (htm : tm.Lawful) (jw : Nat → Nat)
+    (v : FieldValue) (hwf : v.WF fm = true) (hs : jsonSafe fm v = true) :
+    ∃ j, toJ fm tm jw v = some j ∧ fromJ tm j = some (generic fm v) :=
+  json_codec fm tm htm jw v hwf hs
+
+/-- **Accepted ⇒ round trip, through JSON**: what `roundtrip` states for the stored (CBOR) form
+holds for the JSON rendering of a canonical value that is `jsonSafe`. -/
+theorem json_roundtrip (fm : FloatModel) (hfm : fm.Lawful) (tm : TextModel) (htm : tm.Lawful)
+    (jw : Nat → Nat) (ft : FieldType) (v : FieldValue)
+    (hwf : v.WF fm = true) (hs : jsonSafe fm v = true) (hc : canonical fm true ft v = true)
+    (hb : complexityOk Budget.default v = true) : jsonLoad fm tm jw ft v = some v :=
+  jsonLoad_canonical fm hfm tm htm jw ft v hwf hs hc hb
+
+/-- The full statement (no `jsonSafe` side condition). It is false of the code — *measured*, not
+proved, because floats are opaque here: `serde_json` writes ±∞ as `null`, and its rendering of an
+f32 on a decimal tie is not a read-back shape `is_f32_read_back` accepts (≈3 % of f32 values; see
+`measured.json_f32_readback_rejected` in the evidence and notes/C13.md). -/
+def json_roundtrip_full : Prop :=
+  ∀ (fm : FloatModel) (tm : TextModel) (jw : Nat → Nat) (ft : FieldType) (v : FieldValue),
+    fm.Lawful → tm.Lawful → v.WF fm = true → canonical fm true ft v = true →
+    complexityOk Budget.default v = true → (toJ fm tm jw v).isSome → jsonLoad fm tm jw ft v = some v
+
+/-- a tagging string codec for the example below (first character = class) -/
+def tm1 : TextModel :=
+  { needsEscape := fun s => match s.toList with | 'T' :: _ | 'B' :: _ | 'I' :: _ => true | _ => false
+    esc := fun s => String.ofList ('T' :: s.toList)
+    b64 := fun b => String.ofList ('B' :: b.map Char.ofNat)
+    i64s := fun i => String.ofList ('I' :: (toString i).toList)
+    classify := fun s => match s.toList with
+      | 'T' :: r => .txt (String.ofList r)
+      | 'B' :: r => .b64 (some (r.map Char.toNat))
+      | 'I' :: r => .i64 (String.ofList r).toInt?
+      | _ => .plain }
+
+example : (match jsonLoad fm0 tm1 id
+      (.map [(.text "*", .array [.bytes, .option .i64, .json])])
+      (.map [(.text "Tx", .array [.bytes [1, 255], .i64 5, .json (.obj [("Bk", .str "Tq")])])]) with
+    | some (.map [(.text "Tx", .array [.bytes [1, 255], .i64 5, .json (.obj [("Bk", .str "Tq")])])]) => true
+    | _ => false) = true := by
+  decide
 
 /-- The full statement over chains: a document valid under `s₀` stays readable under every schema
 reached from `s₀` by accepted upgrades. -/
